@@ -52,6 +52,18 @@ def one_run(run, directory):
     mtime_in = inp.stat().st_mtime_ns
     args = list(run.get('args', []))
     argv = [str(inp), '-o', str(out)] + args
+    # current working directory: None = whatever the worker has; 'deckdir' =
+    # the deck's directory, with RELATIVE input / output names; 'elsewhere' =
+    # a fresh empty directory (absolute names), which must stay empty
+    mode = run.get('cwd')
+    old_cwd = os.getcwd()
+    other = None
+    if mode == 'deckdir':
+        os.chdir(directory)
+        argv = ['deck.imcnp', '-o', 'deck.t4'] + args
+    elif mode == 'elsewhere':
+        other = Path(tempfile.mkdtemp(prefix='cwd_', dir=directory.parent))
+        os.chdir(other)
     res = {'ok': False, 'exc': None, 'msg': ''}
     buf = io.StringIO()
     old_argv = sys.argv
@@ -69,6 +81,7 @@ def one_run(run, directory):
                 res['exc'], res['msg'] = type(exc).__name__, str(exc)[:200]
     finally:
         sys.argv = old_argv
+        os.chdir(old_cwd)
     text = out.read_text(encoding='utf-8', errors='surrogateescape') \
         if out.exists() else None
     if text == SENTINEL:
@@ -84,6 +97,9 @@ def one_run(run, directory):
     after = {p.name for p in directory.iterdir()}
     res['new_files'] = sorted(after - before_names
                               - {'deck.imcnp', 'deck.t4'})
+    if other is not None:
+        res['new_files'] += ['<cwd>/' + p.name for p in other.iterdir()]
+        shutil.rmtree(other, ignore_errors=True)
     return res
 
 
